@@ -27,38 +27,23 @@ Theorem C16_cleanup_selects_reserved : forall managed n,
   is_generated_file managed n = true -> in_b n managed = false -> reserved_name n.
 Proof. exact cleanup_selects_reserved. Qed.
 
-(* Main theorem. may_change r q = q is a reserved name directly inside the output
-   directory of run r and is not a project source (a .rs file below r's project path).
+(* ... and, since the repair of C16-2, never a project source *)
+Theorem C16_cleanup_spares_sources : forall managed n proj out,
+  is_generated_file managed n = true -> in_b n managed = false -> is_source proj (out ++ [n]) = false.
+Proof. exact cleanup_spares_sources. Qed.
+
+(* Main theorem, with no known-finding premise since the repairs of C16-1 and C16-2.
+   may_change r q = q is a reserved name directly inside the output directory of run r
+   and is not a project source (a .rs file below r's project path).
    For every file system and every history of runs (each run with its own entry point,
-   effective configuration and analysis result) in which no run starts inside a
-   recorded class (build-script run with a regular file .write_test, or with a
-   generated-looking project source, directly inside its output directory): a path
-   that no run may change and that no init of the history was pointed at holds the
-   same regular file (same bytes), or the same absence of one, afterwards. This covers
-   foreign files in the output directory, all project sources and everything outside. *)
+   effective configuration and analysis result): a path that no run may change and that
+   no init of the history was pointed at holds the same regular file (same bytes), or the
+   same absence of one, afterwards. This covers foreign files in the output directory,
+   all project sources and everything outside. *)
 Theorem C16_frame : forall runs s q,
-  kf_C16_history runs s = false ->
   (forall r, In r runs -> ~ may_change r q /\ init_target r <> Some q) ->
   file_at (fs_after runs s) q = file_at s q.
 Proof. exact frame_history. Qed.
-
-(* The CLI entry points (generate, init) satisfy the property outright. *)
-Theorem C16_frame_cli : forall r s q,
-  is_build r = false -> ~ may_change r q -> init_target r <> Some q ->
-  file_at (fst (exec r s)) q = file_at s q.
-Proof. exact frame_cli. Qed.
-
-(* The classes are tight: with no premise on the history at all, the only further
-   paths a run can change are <output>/.write_test of a build-script run and project
-   sources directly inside the output directory of a build-script run whose names
-   start with generated_ or contain _generated. *)
-Theorem C16_frame_class_tight : forall runs s q,
-  (forall r, In r runs ->
-     ~ (may_change r q \/ init_target r = Some q
-        \/ (is_build r = true /\ q = out_of r ++ [n_probe])
-        \/ (is_build r = true /\ exists n, q = out_of r ++ [n] /\ is_source (proj_of r) q = true /\ gen_affix n = true))) ->
-  file_at (fs_after runs s) q = file_at s q.
-Proof. exact frame_history_all. Qed.
 
 (* Directories: none disappears or turns into a file; a new one is an output directory
    of the history or one of its ancestors. *)
@@ -74,22 +59,25 @@ Theorem C16_init : forall i c a s q,
   file_at (fst (run_init i c a s)) q = file_at s q.
 Proof. exact init_frame. Qed.
 
-(* The recorded defects inside Coq. 1: a build-script run destroys a foreign .write_test. *)
-Theorem C16_write_test_refuted :
-  exists r s q c, is_build r = true /\ ~ may_change r q /\ init_target r <> Some q /\
-                  file_at s q = Some c /\ file_at (fst (exec r s)) q = None.
-Proof. exact write_test_refuted. Qed.
+(* Whatever sits at <output>/.write_test stays, on every entry (formerly finding C16-1). *)
+Theorem C16_probe_untouched : forall r s, init_target r <> Some (out_of r ++ [n_probe]) ->
+  file_at (fst (exec r s)) (out_of r ++ [n_probe]) = file_at s (out_of r ++ [n_probe]).
+Proof. exact probe_untouched. Qed.
 
-(* 2: a build-script run whose output directory holds sources removes generated_cmds.rs *)
-Theorem C16_source_cleanup_refuted :
-  exists r s q c, is_build r = true /\ is_source (proj_of r) q = true /\ init_target r <> Some q /\
-                  file_at s q = Some c /\ file_at (fst (exec r s)) q = None.
-Proof. exact source_cleanup_refuted. Qed.
+(* The witnesses of the two repaired defects now satisfy the property (and the runs still
+   generate and clean): formerly C16_write_test_refuted and C16_source_cleanup_refuted. *)
+Theorem C16_write_test_kept :
+  file_at (fst (exec wit_run wit_fs)) [L "gen"; L ".write_test"] = Some (L "my notes") /\
+  file_at (fst (exec wit_run wit_fs)) [L "gen"; L "types.ts"] = Some (L "T") /\
+  file_at (fst (exec wit_run wit_fs)) [L "gen"; L "models.ts"] = None /\
+  snd (exec wit_run wit_fs) = BuildOk.
+Proof. exact write_test_kept. Qed.
 
-(* ... hence the statement without the class premise (kept visible) is false of the faithful model *)
-Definition C16_frame_full_statement : Prop := frame_unconditional_statement.
-Theorem C16_frame_full_statement_refuted : ~ C16_frame_full_statement.
-Proof. exact frame_unconditional_refuted. Qed.
+Theorem C16_sources_kept :
+  file_at (fst (exec wit2_run wit2_fs)) [L "src-tauri"; L "src"; L "generated_cmds.rs"] = Some (L "#[tauri::command] fn ping() {}") /\
+  file_at (fst (exec wit2_run wit2_fs)) [L "src-tauri"; L "src"; L "old_generated.ts"] = None /\
+  snd (exec wit2_run wit2_fs) = BuildOk.
+Proof. exact sources_kept. Qed.
 
 (* ---- non-vacuity: a history of four runs over all three entry points meets the
    premises of C16_frame for a foreign file, and really changes the tree *)
@@ -111,14 +99,13 @@ Definition ex_fs : fs :=
    ([L "app"; L "gen"], Dir);
    ([L "app"; L "gen"; L "notes.ts"], File (L "user notes"));
    ([L "app"; L "gen"; L "models.ts"], File (L "stale"));
-   ([L "app"; L "gen"; L "types.ts.bak"], File (L "backup"))].
+   ([L "app"; L "gen"; L "types.ts.bak"], File (L "backup"));
+   ([L "app"; L "gen"; L ".write_test"], File (L "mine"))].
 
 Example C16_ex_premises :
-  kf_C16_history ex_runs ex_fs = false /\
   (forall r, In r ex_runs ->
      ~ may_change r [L "app"; L "gen"; L "notes.ts"] /\ init_target r <> Some [L "app"; L "gen"; L "notes.ts"]).
 Proof.
-  split; [vm_compute; reflexivity|].
   intros r H. cbn [ex_runs In] in H.
   destruct H as [<-|[<-|[<-|[<-|[]]]]]; (split; [apply not_may_change_by_b; vm_compute; reflexivity|discriminate]).
 Qed.
@@ -128,18 +115,19 @@ Example C16_ex_effect :
   file_at (fs_after ex_runs ex_fs) [L "app"; L "gen"; L "models.ts"] = None /\
   file_at (fs_after ex_runs ex_fs) [L "app"; L "src-tauri"; L "tauri.conf.json"] = Some (L "{new}") /\
   file_at (fs_after ex_runs ex_fs) [L "app"; L "gen"; L "notes.ts"] = Some (L "user notes") /\
-  file_at (fs_after ex_runs ex_fs) [L "app"; L "gen"; L "types.ts.bak"] = Some (L "backup").
+  file_at (fs_after ex_runs ex_fs) [L "app"; L "gen"; L "types.ts.bak"] = Some (L "backup") /\
+  file_at (fs_after ex_runs ex_fs) [L "app"; L "gen"; L ".write_test"] = Some (L "mine").
 Proof. vm_compute. repeat split; reflexivity. Qed.
 
-(* a generated-looking project source inside the output directory: outside the classes on the CLI paths *)
+(* a generated-looking project source inside the output directory, build-script entry *)
 Definition ex2_cfg : cfg :=
   {| c_out := [L "app"; L "src-tauri"; L "src"]; c_proj := [L "app"; L "src-tauri"]; c_lib_ok := true; c_force := true; c_viz := false |}.
-Definition ex2_run : run := {| r_entry := Generate; r_cfg := ex2_cfg; r_ana := ex_ana true |}.
+Definition ex2_run : run := {| r_entry := Build true; r_cfg := ex2_cfg; r_ana := ex_ana true |}.
 Definition ex2_fs : fs :=
   [([L "app"], Dir); ([L "app"; L "src-tauri"], Dir); ([L "app"; L "src-tauri"; L "src"], Dir);
    ([L "app"; L "src-tauri"; L "src"; L "generated_cmds.rs"], File (L "source"))].
 Example C16_ex_source :
-  is_build ex2_run = false /\
+  is_build ex2_run = true /\
   ~ may_change ex2_run [L "app"; L "src-tauri"; L "src"; L "generated_cmds.rs"] /\
   reserved (out_of ex2_run) [L "app"; L "src-tauri"; L "src"; L "generated_cmds.rs"] /\
   file_at (fst (exec ex2_run ex2_fs)) [L "app"; L "src-tauri"; L "src"; L "types.ts"] = Some (L "T").
@@ -158,11 +146,10 @@ Print Assumptions C16_reserved_name_b_iff.
 Print Assumptions C16_reserved_b_iff.
 Print Assumptions C16_reserved_exact_listing.
 Print Assumptions C16_cleanup_selects_reserved.
+Print Assumptions C16_cleanup_spares_sources.
 Print Assumptions C16_frame.
-Print Assumptions C16_frame_cli.
-Print Assumptions C16_frame_class_tight.
 Print Assumptions C16_dirs.
 Print Assumptions C16_init.
-Print Assumptions C16_write_test_refuted.
-Print Assumptions C16_source_cleanup_refuted.
-Print Assumptions C16_frame_full_statement_refuted.
+Print Assumptions C16_probe_untouched.
+Print Assumptions C16_write_test_kept.
+Print Assumptions C16_sources_kept.
